@@ -31,9 +31,15 @@ Proof. destruct a, b; cbn; try discriminate; reflexivity. Qed.
 Lemma unop_eqb_eq : forall a b, unop_eqb a b = true -> a = b.
 Proof. destruct a, b; cbn; try discriminate; reflexivity. Qed.
 
+Lemma strs_eqb_eq : forall a b, strs_eqb a b = true -> a = b.
+Proof.
+  induction a as [|x a IH]; destruct b as [|y b]; cbn [strs_eqb]; try discriminate; [reflexivity|].
+  rewrite andb_true_iff, String.eqb_eq. intros [-> H]. f_equal. apply IH, H.
+Qed.
+
 Lemma expr_eqb_eq : forall a b, expr_eqb a b = true -> a = b.
 Proof.
-  induction a as [v|x|x p|o a1 IH1 a2 IH2|o a1 IH1|x l]; destruct b; cbn [expr_eqb]; try discriminate;
+  induction a as [v|x|x p|o a1 IH1 a2 IH2|o a1 IH1|x l|tg vs]; destruct b; cbn [expr_eqb]; try discriminate;
     rewrite ?andb_true_iff, ?String.eqb_eq.
   - intros H. f_equal. apply val_eqb_eq, H.
   - congruence.
@@ -41,6 +47,7 @@ Proof.
   - intros [[H0 H1] H2]. f_equal; auto using binop_eqb_eq.
   - intros [H0 H1]. f_equal; auto using unop_eqb_eq.
   - intros [-> ->]. reflexivity.
+  - intros [-> H]. f_equal. apply strs_eqb_eq, H.
 Qed.
 
 Lemma list_eqb_eq : forall {A} (eqb : A -> A -> bool),
